@@ -60,6 +60,7 @@ def statefulOps : List (String × (DrvState → Json → J (DrvState × Json))) 
   ("tabledef-extract", TD.opTableDefExtract) ::
   ("fix-ncep", TD.opFixNcep) ::
   ("build-src", TD.opBuildSrc) ::
+  ("tabledef-stream", TD.opTableDefStream) ::
   ("dec-data-flat", opDecDataFlat) ::
   ("col-parse", opColParse) ::
   ("wf-bitmap", opWfBitmap) ::
